@@ -153,7 +153,7 @@ use crate::expressions::{BinaryExpr, Literal};
 use crate::utils::{ExprTreeNode, build_dag};
 
 use arrow::datatypes::{DataType, Schema};
-use datafusion_common::{Result, internal_err, not_impl_err};
+use datafusion_common::{Result, ScalarValue, internal_err, not_impl_err};
 use datafusion_expr::Operator;
 use datafusion_expr::interval_arithmetic::{Interval, apply_operator, satisfy_greater};
 
@@ -280,9 +280,14 @@ pub fn propagate_arithmetic(
         }
         _ => {
             // First, propagate to the left:
-            match apply_operator(&inverse_op, parent, right_child)?
-                .intersect(left_child)?
-            {
+            let new_left = if is_zero_product_possible(op, parent, right_child)? {
+                // Any left value satisfies the constraint when the right
+                // child is zero, so we can not shrink the left child.
+                Some(left_child.clone())
+            } else {
+                apply_operator(&inverse_op, parent, right_child)?.intersect(left_child)?
+            };
+            match new_left {
                 // Left is feasible:
                 Some(value) => Ok(
                     // Propagate to the right using the new left.
@@ -683,6 +688,11 @@ fn propagate_right(
     op: &Operator,
     inverse_op: &Operator,
 ) -> Result<Option<Interval>> {
+    if is_zero_product_possible(op, parent, left)? {
+        // Any right value satisfies the constraint when the left child is
+        // zero, so we can not shrink the right child.
+        return Ok(Some(right.clone()));
+    }
     match op {
         Operator::Minus => apply_operator(op, left, parent),
         Operator::Plus => apply_operator(inverse_op, parent, left),
@@ -691,6 +701,25 @@ fn propagate_right(
         _ => internal_err!("Interval arithmetic does not support the operator {}", op),
     }?
     .intersect(right)
+}
+
+/// Checks whether the constraint `x * other = parent` can be satisfied through
+/// a zero `other`; i.e. whether both `other` and `parent` contain zero. In such
+/// a case, `x` can take any value (since `x * 0 = 0`), so it can not be refined
+/// via the inverse operation `parent / other` (which assumes a non-zero divisor).
+fn is_zero_product_possible(
+    op: &Operator,
+    parent: &Interval,
+    other: &Interval,
+) -> Result<bool> {
+    if *op != Operator::Multiply {
+        return Ok(false);
+    }
+    let contains_zero = |interval: &Interval| {
+        ScalarValue::new_zero(&interval.data_type())
+            .and_then(|zero| interval.contains_value(zero))
+    };
+    Ok(contains_zero(parent)? && contains_zero(other)?)
 }
 
 /// During the propagation of [`Interval`] values on an [`ExprIntervalGraph`],
